@@ -4,7 +4,7 @@ import json, sys, subprocess, glob, os
 pid = sys.argv[1]; wt = sys.argv[2]; n = sys.argv[3]
 g = pid.lower()
 avoid = []
-for st in ('/root/seeded-staging', '/root/seeded-staging2'):
+for st in ('/root/seeded-staging', '/root/seeded-staging2', '/root/seeded-staging3'):
     for m in sorted(glob.glob('%s/%s/*/meta.json' % (st, g))):
         try:
             d = json.load(open(m))
